@@ -124,3 +124,260 @@ Theorem C05_created_store_ok : forall (HO : hops), hash_ok HO ->
   encode_ranges_validated_fsm HO data ob q = (Ok tt, flat HO (honest HO data bs q)).
 Proof. exact c05_created_store_ok. Qed.
 Print Assumptions C05_created_store_ok.
+
+(* ======== Gap audit (proofs in Proofs/GapEnc.v, Proofs/GapEncStore.v) ========
+   - the fsm validating encoder without the q <> [] premise of C05_prefix_fsm;
+   - the item-stream encoder (traverse_ranges_validated, mixed.rs) at the strength of C05_prefix / C05_detects;
+   - "stops with a hash mismatch iff some byte the query depends on differs": Ok exactly when every unit is intact;
+   - "differences in parts the query does not depend on change nothing", for any two stores (no reference blob);
+   - "never sends bytes that fail verification", from the receiver's side. *)
+From BaoV Require Import Proofs.DecForest Proofs.E2EDecode Proofs.DecWitness Proofs.EncNonval Proofs.GapBao Proofs.GapEnc Proofs.GapEncStore.
+From Coq Require Import Arith.
+
+Theorem C05_prefix_fsm_all : forall (HO : hops) (data : bytes HO) (bs : N) (q : ranges),
+  wf_ranges q = true -> blen HO data <= 2 ^ 63 -> bs <= 10 ->
+  forall ob : outboard HO,
+  ob_tree ob = mkTree (blen HO data) bs -> ob_root ob = root_hash HO data ->
+  forall (data' : bytes HO) (r : res enc_err unit) (out : bytes HO),
+  hash_ok HO ->
+  encode_ranges_validated_fsm HO data' ob q = (r, out) ->
+  (exists tail, flat HO (honest HO data bs q) = out ++ tail /\
+                (r = Ok tt -> tail = []) /\ (is_mismatch r -> tail <> [])) /\
+  (r = Ok tt \/ is_mismatch r \/ (exists k, r = Err (EIo k)) \/ r = Panic) /\
+  ((forall nd, In nd (enc_nodes (blen HO data) bs q) -> exists p, load_fsm HO ob nd = Ok (Some p)) ->
+     r <> Panic /\ (blen HO data' = blen HO data -> forall k, r <> Err (EIo k))).
+Proof. exact c05_prefix_fsm_all. Qed.
+Print Assumptions C05_prefix_fsm_all.
+
+(* the item stream on ANY store and data file: None (the task panicked: a parent of the plan without a slot) or the
+   size item, items whose bytes are a prefix of the honest encoding, and one closing item: Done exactly when all
+   was sent, otherwise an Error item: a hash mismatch (then something is missing) or an io error *)
+Theorem C05_prefix_mixed : forall (HO : hops) (data : bytes HO) (bs : N) (q : ranges),
+  wf_ranges q = true -> blen HO data <= 2 ^ 63 -> bs <= 10 ->
+  forall ob : outboard HO,
+  ob_tree ob = mkTree (blen HO data) bs -> ob_root ob = root_hash HO data ->
+  forall data' : bytes HO, hash_ok HO ->
+  traverse_ranges_validated HO data' ob q = None \/
+  exists (its : list (item HO)) (last : eitem HO) (tail : bytes HO),
+    traverse_ranges_validated HO data' ob q = Some (ESize (blen HO data) :: map EItem its ++ [last]) /\
+    flat HO (honest HO data bs q) = concat (map (item_bytes HO) its) ++ tail /\
+    ((last = EDone /\ tail = []) \/
+     (exists e, last = EError e /\
+        ((is_mismatch (Err e) /\ tail <> []) \/ (exists k, e = EIo k)))).
+Proof. exact c05_prefix_mixed. Qed.
+Print Assumptions C05_prefix_mixed.
+
+Theorem C05_mixed_no_panic : forall (HO : hops) (data : bytes HO) (bs : N) (q : ranges),
+  wf_ranges q = true -> blen HO data <= 2 ^ 63 -> bs <= 10 ->
+  forall ob : outboard HO,
+  ob_tree ob = mkTree (blen HO data) bs -> ob_root ob = root_hash HO data ->
+  forall data' : bytes HO, hash_ok HO ->
+  (forall nd, In nd (enc_nodes (blen HO data) bs q) -> exists p, load_sync HO ob nd = Ok (Some p)) ->
+  traverse_ranges_validated HO data' ob q <> None /\
+  (blen HO data' = blen HO data -> forall its k,
+     traverse_ranges_validated HO data' ob q <> Some (ESize (blen HO data) :: map EItem its ++ [EError (EIo k)])).
+Proof. exact c05_mixed_no_panic. Qed.
+Print Assumptions C05_mixed_no_panic.
+
+(* the first unit of the plan that differs from the blob decides the closing item of the stream *)
+Theorem C05_detects_mixed : forall (HO : hops) (data : bytes HO) (bs : N) (q : ranges),
+  wf_ranges q = true -> blen HO data <= 2 ^ 63 -> bs <= 10 ->
+  forall ob : outboard HO,
+  ob_tree ob = mkTree (blen HO data) bs -> ob_root ob = root_hash HO data ->
+  forall (data' : bytes HO) (P1 : list chunk) (u : chunk) (P2 : list chunk),
+  hash_ok HO ->
+  pre_order_chunks_iter (mkTree (blen HO data) bs) (truncate_ranges q (blen HO data)) 0 = P1 ++ u :: P2 ->
+  Forall (unit_ok HO data bs (load_sync HO ob) data') P1 ->
+  (forall n ir lf rt rs p, u = CParent n ir lf rt rs ->
+     load_sync HO ob n = Ok (Some p) -> p <> true_pair HO data n ->
+     exists its, traverse_ranges_validated HO data' ob q
+                 = Some (ESize (blen HO data) :: map EItem its ++ [EError (EParentHashMismatch n)]) /\
+                 concat (map (item_bytes HO) its) = hbs HO data bs q P1) /\
+  (forall c sz ir rs buf, u = CLeaf c sz ir rs ->
+     read_exact_at HO data' (to_bytes c) sz = Ok buf -> buf <> chunk_bytes HO data c (gE HO data bs c) ->
+     exists its, traverse_ranges_validated HO data' ob q
+                 = Some (ESize (blen HO data) :: map EItem its ++ [EError (ELeafHashMismatch c)]) /\
+                 concat (map (item_bytes HO) its) = hbs HO data bs q P1).
+Proof. exact c05_detects_mixed. Qed.
+Print Assumptions C05_detects_mixed.
+
+(* the result is Ok EXACTLY when every unit of the plan is intact (unit_ok: the stored pair of a parent of the plan is
+   the blob's true pair / the stored bytes of a leaf chunk group of the plan are the blob's); when moreover every parent
+   of the plan has a slot and the data file has the blob's length, any other outcome is a hash mismatch *)
+Theorem C05_ok_iff_intact : forall (HO : hops), hash_ok HO ->
+  forall (data : bytes HO) (bs : N) (q : ranges),
+  wf_ranges q = true -> blen HO data <= 2 ^ 63 -> bs <= 10 ->
+  forall ob : outboard HO,
+  ob_tree ob = mkTree (blen HO data) bs -> ob_root ob = root_hash HO data ->
+  forall (data' : bytes HO) (r : res enc_err unit) (out : bytes HO),
+  encode_ranges_validated HO data' ob q = (r, out) ->
+  (r = Ok tt <-> Forall (unit_ok HO data bs (load_sync HO ob) data')
+                        (pre_order_chunks_iter (mkTree (blen HO data) bs) (truncate_ranges q (blen HO data)) 0)) /\
+  ((forall nd, In nd (enc_nodes (blen HO data) bs q) -> exists p, load_sync HO ob nd = Ok (Some p)) ->
+   blen HO data' = blen HO data -> r = Ok tt \/ is_mismatch r).
+Proof. exact any_corruption_sync. Qed.
+Print Assumptions C05_ok_iff_intact.
+
+Theorem C05_ok_iff_intact_fsm : forall (HO : hops), hash_ok HO ->
+  forall (data : bytes HO) (bs : N) (q : ranges),
+  wf_ranges q = true -> blen HO data <= 2 ^ 63 -> bs <= 10 ->
+  forall ob : outboard HO,
+  ob_tree ob = mkTree (blen HO data) bs -> ob_root ob = root_hash HO data ->
+  forall (data' : bytes HO) (r : res enc_err unit) (out : bytes HO),
+  encode_ranges_validated_fsm HO data' ob q = (r, out) ->
+  (r = Ok tt <-> Forall (unit_ok HO data bs (load_fsm HO ob) data')
+                        (pre_order_chunks_iter (mkTree (blen HO data) bs) (truncate_ranges q (blen HO data)) 0)) /\
+  ((forall nd, In nd (enc_nodes (blen HO data) bs q) -> exists p, load_fsm HO ob nd = Ok (Some p)) ->
+   blen HO data' = blen HO data -> r = Ok tt \/ is_mismatch r).
+Proof. exact any_corruption_fsm. Qed.
+Print Assumptions C05_ok_iff_intact_fsm.
+
+(* last clause, with no reference blob: two stores (any contents) with the same tree and root that agree on every unit
+   the plan of the query reads give the same result, bytes and items; everything else in the stores is irrelevant *)
+Theorem C05_same_on_units : forall (HO : hops) (d1 d2 : bytes HO) (ob1 ob2 : outboard HO) (q : ranges),
+  ob_tree ob1 = ob_tree ob2 -> ob_root ob1 = ob_root ob2 ->
+  let plan := pre_order_chunks_iter (ob_tree ob1) (truncate_ranges q (tsize (ob_tree ob1))) 0 in
+  (forall s sz ir rs, In (CLeaf s sz ir rs) plan ->
+     read_exact_at HO d1 (to_bytes s) sz = read_exact_at HO d2 (to_bytes s) sz) ->
+  ((forall nd, In nd (plan_nodes plan) -> load_sync HO ob1 nd = load_sync HO ob2 nd) ->
+     encode_ranges_validated HO d1 ob1 q = encode_ranges_validated HO d2 ob2 q /\
+     traverse_ranges_validated HO d1 ob1 q = traverse_ranges_validated HO d2 ob2 q) /\
+  ((forall nd, In nd (plan_nodes plan) -> load_fsm HO ob1 nd = load_fsm HO ob2 nd) ->
+     encode_ranges_validated_fsm HO d1 ob1 q = encode_ranges_validated_fsm HO d2 ob2 q).
+Proof. exact same_on_units. Qed.
+Print Assumptions C05_same_on_units.
+
+(* ---- the receiver's side ----
+   item_err HO true it (Proofs/E2EDecode.v) = DParentNotFound n for it = IParent n _ _, DLeafNotFound (off / 1024) for
+   it = ILeaf off _: the error of a stream that ENDS inside item `it` (never a hash mismatch).
+   A decoder (sync DecodeResponseIter / fsm ResponseDecoder) set up with the true root that is fed ANY byte prefix p of the
+   honest encoding yields honest items only (the first k), all accepted, and then finishes (p is everything) or reports
+   item k as not found *)
+Theorem C05_prefix_accepted : forall (HO : hops), hash_ok HO ->
+  forall (data : bytes HO) (bs : N) (q : ranges),
+  blen HO data <= 2 ^ 63 -> bs <= 10 -> wf_ranges q = true ->
+  forall p tail : bytes HO,
+  flat HO (honest HO data bs q) = p ++ tail ->
+  exists k : nat,
+    (length (flat HO (firstn k (honest HO data bs q))) <= length p)%nat /\
+    (forall ys o st, dec_run HO (dec_new HO (root_hash HO data) (mkTree (blen HO data) bs) p q) = (ys, o, st) ->
+       ys = firstn k (honest HO data bs q) /\
+       ((tail = [] /\ k = length (honest HO data bs q) /\ o = Finished) \/
+        (tail <> [] /\ exists it, nth_error (honest HO data bs q) k = Some it /\ o = Failed (item_err HO true it)))) /\
+    (forall ys o st, rd_run HO (rd_new HO (root_hash HO data) q (mkTree (blen HO data) bs) p) = (ys, o, st) ->
+       ys = firstn k (honest HO data bs q) /\
+       ((tail = [] /\ k = length (honest HO data bs q) /\ o = Finished) \/
+        (tail <> [] /\ exists it, nth_error (honest HO data bs q) k = Some it /\ o = Failed (item_err HO true it)))).
+Proof. exact prefix_accepted. Qed.
+Print Assumptions C05_prefix_accepted.
+
+(* whatever the sync validating encoder has written when it returns r - on ANY store and data file - is such a prefix:
+   both decoders accept item by item everything in it; r = Ok: they finish with the whole honest encoding; r a mismatch:
+   they report the next honest item as not found *)
+Theorem C05_receiver_sync : forall (HO : hops), hash_ok HO ->
+  forall (data : bytes HO) (bs : N) (q : ranges),
+  wf_ranges q = true -> blen HO data <= 2 ^ 63 -> bs <= 10 ->
+  forall ob : outboard HO,
+  ob_tree ob = mkTree (blen HO data) bs -> ob_root ob = root_hash HO data ->
+  forall (data' : bytes HO) (r : res enc_err unit) (out : bytes HO),
+  encode_ranges_validated HO data' ob q = (r, out) ->
+  exists (k : nat) (tail : bytes HO),
+    flat HO (honest HO data bs q) = out ++ tail /\ (r = Ok tt -> tail = []) /\ (is_mismatch r -> tail <> []) /\
+    (length (flat HO (firstn k (honest HO data bs q))) <= length out)%nat /\
+    (forall ys o st, dec_run HO (dec_new HO (ob_root ob) (ob_tree ob) out q) = (ys, o, st) ->
+       ys = firstn k (honest HO data bs q) /\
+       ((tail = [] /\ k = length (honest HO data bs q) /\ o = Finished) \/
+        (tail <> [] /\ exists it, nth_error (honest HO data bs q) k = Some it /\ o = Failed (item_err HO true it)))) /\
+    (forall ys o st, rd_run HO (rd_new HO (ob_root ob) q (ob_tree ob) out) = (ys, o, st) ->
+       ys = firstn k (honest HO data bs q) /\
+       ((tail = [] /\ k = length (honest HO data bs q) /\ o = Finished) \/
+        (tail <> [] /\ exists it, nth_error (honest HO data bs q) k = Some it /\ o = Failed (item_err HO true it)))).
+Proof. exact receiver_sync. Qed.
+Print Assumptions C05_receiver_sync.
+
+Theorem C05_receiver_fsm : forall (HO : hops), hash_ok HO ->
+  forall (data : bytes HO) (bs : N) (q : ranges),
+  wf_ranges q = true -> blen HO data <= 2 ^ 63 -> bs <= 10 ->
+  forall ob : outboard HO,
+  ob_tree ob = mkTree (blen HO data) bs -> ob_root ob = root_hash HO data ->
+  forall (data' : bytes HO) (r : res enc_err unit) (out : bytes HO),
+  encode_ranges_validated_fsm HO data' ob q = (r, out) ->
+  exists (k : nat) (tail : bytes HO),
+    flat HO (honest HO data bs q) = out ++ tail /\ (r = Ok tt -> tail = []) /\ (is_mismatch r -> tail <> []) /\
+    (length (flat HO (firstn k (honest HO data bs q))) <= length out)%nat /\
+    (forall ys o st, dec_run HO (dec_new HO (ob_root ob) (ob_tree ob) out q) = (ys, o, st) ->
+       ys = firstn k (honest HO data bs q) /\
+       ((tail = [] /\ k = length (honest HO data bs q) /\ o = Finished) \/
+        (tail <> [] /\ exists it, nth_error (honest HO data bs q) k = Some it /\ o = Failed (item_err HO true it)))) /\
+    (forall ys o st, rd_run HO (rd_new HO (ob_root ob) q (ob_tree ob) out) = (ys, o, st) ->
+       ys = firstn k (honest HO data bs q) /\
+       ((tail = [] /\ k = length (honest HO data bs q) /\ o = Finished) \/
+        (tail <> [] /\ exists it, nth_error (honest HO data bs q) k = Some it /\ o = Failed (item_err HO true it)))).
+Proof. exact receiver_fsm. Qed.
+Print Assumptions C05_receiver_fsm.
+
+(* the item stream: the bytes of the items sent before the closing item *)
+Theorem C05_receiver_mixed : forall (HO : hops), hash_ok HO ->
+  forall (data : bytes HO) (bs : N) (q : ranges),
+  wf_ranges q = true -> blen HO data <= 2 ^ 63 -> bs <= 10 ->
+  forall ob : outboard HO,
+  ob_tree ob = mkTree (blen HO data) bs -> ob_root ob = root_hash HO data ->
+  forall (data' : bytes HO) (its : list (item HO)) (last : eitem HO),
+  traverse_ranges_validated HO data' ob q = Some (ESize (blen HO data) :: map EItem its ++ [last]) ->
+  (last = EDone \/ exists e, last = EError e) /\
+  let r := match last with EError e => Err e | _ => Ok tt end in
+  let out := concat (map (item_bytes HO) its) in
+  exists (k : nat) (tail : bytes HO),
+    flat HO (honest HO data bs q) = out ++ tail /\ (r = Ok tt -> tail = []) /\ (is_mismatch r -> tail <> []) /\
+    (length (flat HO (firstn k (honest HO data bs q))) <= length out)%nat /\
+    (forall ys o st, dec_run HO (dec_new HO (ob_root ob) (ob_tree ob) out q) = (ys, o, st) ->
+       ys = firstn k (honest HO data bs q) /\
+       ((tail = [] /\ k = length (honest HO data bs q) /\ o = Finished) \/
+        (tail <> [] /\ exists it, nth_error (honest HO data bs q) k = Some it /\ o = Failed (item_err HO true it)))) /\
+    (forall ys o st, rd_run HO (rd_new HO (ob_root ob) q (ob_tree ob) out) = (ys, o, st) ->
+       ys = firstn k (honest HO data bs q) /\
+       ((tail = [] /\ k = length (honest HO data bs q) /\ o = Finished) \/
+        (tail <> [] /\ exists it, nth_error (honest HO data bs q) k = Some it /\ o = Failed (item_err HO true it)))).
+Proof. exact receiver_mixed. Qed.
+Print Assumptions C05_receiver_mixed.
+
+(* non-vacuity (term-algebra hash, hash_ok; 3 chunks; block size 0): nv_ob = the created store; nv_bad = the same store
+   with the second stored pair zeroed: the hypotheses of the theorems above hold for it, both validating encoders send
+   the root pair (64 bytes) and stop with a parent hash mismatch at node 0, the item stream closes with the same error *)
+Theorem C05_gap_nonvacuous :
+  hash_ok term_hops /\ blen term_hops nv_data <= 2 ^ 63 /\ nchunks (blen term_hops nv_data) = 3 /\
+  created_store term_hops nv_data 0 nv_ob /\
+  wf_ranges [1; 2] = true /\ wf_ranges [0] = true /\
+  length (bao_slice term_hops nv_data (1 * 1024) ((2 - 1) * 1024)) = 1152%nat /\
+  ob_tree nv_bad = mkTree (blen term_hops nv_data) 0 /\ ob_root nv_bad = root_hash term_hops nv_data /\
+  (exists out, encode_ranges_validated term_hops nv_data nv_bad [0] = (Err (EParentHashMismatch 0), out) /\
+               length out = 64%nat) /\
+  (exists out, encode_ranges_validated_fsm term_hops nv_data nv_bad [0] = (Err (EParentHashMismatch 0), out) /\
+               length out = 64%nat) /\
+  (exists it, traverse_ranges_validated term_hops nv_data nv_bad [0]
+              = Some (ESize 2049 :: map EItem [it] ++ [EError (EParentHashMismatch 0)])).
+Proof. exact gap_enc_nonvacuous. Qed.
+Print Assumptions C05_gap_nonvacuous.
+
+(* more non-vacuity, same blob: (a) the hypotheses of C04_function_of_selection_created: two different queries with the
+   same selection ([0,3) and [0,oo) on 3 chunks), groups_full; (b) the hypotheses of C05_same_on_units: two different
+   stores (nv_ob intact, nv_bad with the pair of node 0 zeroed) that agree on every unit of the plan of the query
+   "chunk 2", which never reads that pair; (c) the hypotheses of C05_detects / C05_detects_fsm / C05_detects_mixed: the
+   plan of the full query on nv_bad split at its first differing unit, the parent of node 0 *)
+Theorem C05_gap_nonvacuous2 :
+  (wf_ranges [0; 3] = true /\ wf_ranges [0] = true /\ [0; 3] <> [0] /\
+   (forall c, sel [0; 3] (blen term_hops nv_data) c = sel [0] (blen term_hops nv_data) c) /\
+   groups_full 0 [0; 3] (blen term_hops nv_data)) /\
+  (nv_ob <> nv_bad /\ ob_tree nv_ob = ob_tree nv_bad /\ ob_root nv_ob = ob_root nv_bad /\
+   let plan := pre_order_chunks_iter (ob_tree nv_ob) (truncate_ranges [2; 3] (tsize (ob_tree nv_ob))) 0 in
+   plan <> [] /\
+   (forall nd, In nd (plan_nodes plan) -> load_sync term_hops nv_ob nd = load_sync term_hops nv_bad nd) /\
+   (forall nd, In nd (plan_nodes plan) -> load_fsm term_hops nv_ob nd = load_fsm term_hops nv_bad nd)) /\
+  (exists P1 u P2 p,
+     pre_order_chunks_iter (mkTree (blen term_hops nv_data) 0) (truncate_ranges [0] (blen term_hops nv_data)) 0
+       = P1 ++ u :: P2 /\
+     P1 <> [] /\ Forall (unit_ok term_hops nv_data 0 (load_sync term_hops nv_bad) nv_data) P1 /\
+     u = CParent 0 false true true [0] /\
+     load_sync term_hops nv_bad 0 = Ok (Some p) /\ p <> true_pair term_hops nv_data 0).
+Proof. exact gap_enc_nonvacuous2. Qed.
+Print Assumptions C05_gap_nonvacuous2.
